@@ -56,6 +56,7 @@ class LoopInfo:
 
 UNDEF = ("undef",)
 UNIT = ("unit",)
+UNROLL_MAX = 8
 
 
 def is_ref(v):
@@ -81,6 +82,7 @@ class Engine:
         self.no_inline = set()
         self.trace_calls = []   # (callpath, callee id) for evidence
         self.assumed = []       # BDD nodes known to hold after sole-exit loops (rejection sampling)
+        self.unroll = {}        # loop uid -> (iteration index, trip count, shape) while a small loop is unrolled
 
     # ------------------------------------------------------------- booleans
     def B(self, node):
@@ -214,6 +216,8 @@ class Engine:
             return self.index_value(s[1], i)
         if s[0] == "mutrefs":
             return ("at", ("cellvec", s[1], s[2]), i)
+        if s[0] == "chunks" and i[0] == "int":
+            return ("refv", ("slice_of", s[1], ("int", i[1] * s[2]), ("int", (i[1] + 1) * s[2])))
         return self.index_value(s, i)
 
     def subst(self, t, sub):
@@ -395,6 +399,8 @@ class Engine:
             return self.update(v, rest, val)
         if k == "vidx":
             i = e[1]
+            if v[0] == "repeat" and i[0] == "int" and isinstance(v[2], int) and 0 <= i[1] < v[2] <= 64:
+                v = ("array", (v[1],) * v[2])
             if v[0] == "array" and i[0] == "int":
                 es = list(v[1])
                 es[i[1]] = self.update(es[i[1]], rest, val)
@@ -680,6 +686,9 @@ class Engine:
                 op, a, b = "Le", b, a
             if op == "Ne":
                 return ("b", self.bdd.NOT(self.bdd.var(("icmp", "Eq", a, b, ts))))
+            if op == "Le":
+                # one canonical order atom: a <= b  ==  !(b < a)   (so `MAX >= v` and `!(v > MAX)` are the same node)
+                return ("b", self.bdd.NOT(self.bdd.var(("icmp", "Lt", b, a, ts))))
             return ("b", self.bdd.var(("icmp", op, a, b, ts)))
         if isbool and op in ("BitAnd", "BitOr", "BitXor"):
             x, y = self.tobdd(a), self.tobdd(b)
@@ -1127,6 +1136,43 @@ class Engine:
             for u in set(self.loops) - nloops - {uid}:
                 del self.loops[u]
             fr.returns[:] = saved_rets
+        # ---- small iterator loops with a statically known trip count are executed iteration by iteration
+        n_trip = None
+        if info.kind == "iter" and info.src is not None:
+            from .models import shape_len, unrollable
+            n_trip = shape_len(self, info.src)
+            if not (isinstance(n_trip, int) and 0 <= n_trip <= UNROLL_MAX and unrollable(info.src)):
+                n_trip = None
+        if n_trip is not None:
+            del self.obligations[nob:]
+            del self.panics[npan:]
+            for u in set(self.loops) - nloops - {uid}:
+                del self.loops[u]
+            fr.returns[:] = saved_rets
+            info.kind = "unrolled"
+            info.cells, info.init, info.step, info.early, info.normal = [], {}, {}, [], []
+            res = []
+            cur = st0.fork()
+            shape = info.src
+            for kk in range(n_trip + 1):
+                self.unroll[uid] = (kk, n_trip, shape)
+                self.binders.append(uid)
+                try:
+                    exits, backs = self.eval_region(cur, fr, blocks, header, header)
+                finally:
+                    self.binders.pop()
+                for tgt, sts in exits.items():
+                    for s_ in sts:
+                        res.append((tgt, s_))
+                if not backs:
+                    break
+                cur = self.merge(backs) if len(backs) > 1 else backs[0]
+            self.unroll.pop(uid, None)
+            # one state per target
+            by_t = {}
+            for tgt, s_ in res:
+                by_t.setdefault(tgt, []).append(s_)
+            return [(tgt, self.merge(sts) if len(sts) > 1 else sts[0]) for tgt, sts in by_t.items()]
         info.cells = sorted(M)
         info.init = {c: st0.store.get(c, UNDEF) for c in M}
         if backs:
